@@ -113,7 +113,7 @@ def eq_grid(i0: bool, i1: bool, i2: bool, x0: bool, x1: bool, x2: bool, x3: bool
             y3: bool, left_int: bool, nest: bool, exact: bool) -> bool:
     """
     Tolerance on IEEE doubles: operands from the grid (floats next to the default delta at small and LARGE magnitude)
-    or a small int, both orders, optionally nested in a list, exact_strings on or off: |a-b| < delta => equal, |a-b| > delta => not equal,
+    or a small int, both orders, raw or nested (list / dict value / dict in a list / tuple in a dict), exact_strings on or off: |a-b| < delta => equal, |a-b| > delta => not equal,
     symmetric, assert_equal / assert_not_equal / assert_almost_equal agree.
 
     pre: True
@@ -122,7 +122,7 @@ def eq_grid(i0: bool, i1: bool, i2: bool, x0: bool, x1: bool, x2: bool, x3: bool
     if tick():
         return True
     if PART:
-        left_int, nest = [bool(int(x)) for x in PART.split(",")]
+        left_int, nest = bool(int(PART.split(",")[0])), int(PART.split(",")[1])
     i = bits(i0, i1, i2) - 3
     fa, fb = _grid(x0, x1, x2, x3), _grid(y0, y1, y2, y3)
     if fa is None or fb is None:
@@ -133,11 +133,20 @@ def eq_grid(i0: bool, i1: bool, i2: bool, x0: bool, x1: bool, x2: bool, x3: bool
     b = fb
     if excluded("C07.eq_grid", a=a, b=b, nest=nest):
         return True
+    exact_concrete = True if exact else False          # decide the last symbolic bit while still tracing
+    from crosshair.tracers import NoTracing
+    with NoTracing():              # every value is concrete here (chosen by the bits): run the comparison natively
+        return _eq_cell(a, b, int(nest), exact_concrete)
+
+
+def _eq_cell(a, b, nest, exact):
     d = abs(a - b)
     if d == DELTA:
         return True
     want = d < DELTA
-    xa, xb = ([a], [b]) if nest else (a, b)
+    # nest: 0 raw, 1 in a list, 2 as a dict value, 3 as a dict value inside a list, 4 in a tuple inside a dict
+    xa, xb = [(a, b), ([a], [b]), ({"k": a}, {"k": b}), ([{"k": a, "j": 1}], [{"k": b, "j": 1}]),
+              ({"k": (a, "s")}, {"k": (b, "s")})][nest]
     # exact_strings only concerns strings: the float tolerance applies either way
     e1, e2 = equality_test(xa, xb, exact, DELTA), equality_test(xb, xa, exact, DELTA)
     pos = _passes(R.assert_equal, xa, xb, exact_strings=exact, delta=DELTA)
